@@ -10,7 +10,15 @@ D=seeded/$ID
 WT=/tmp/wt-seeded-$ID
 git -C /repo worktree remove --force $WT >/dev/null 2>&1
 git -C /repo worktree add --detach $WT HEAD >/dev/null 2>&1 || { echo "worktree failed"; exit 2; }
-if ! git -C $WT apply $(pwd)/$D/patch.diff; then echo "PATCH-DOES-NOT-APPLY $ID"; git -C /repo worktree remove --force $WT; exit 3; fi
+REV=$(python3 -c "import json;print(json.load(open('$D/meta.json')).get('revert_commit',''))")
+if [ -n "$REV" ]; then
+  # reverse of a fix commit: revert it on the current HEAD (3-way, follows later changes of the context);
+  # patch.diff is the same change as a plain diff, refreshed by tools/refresh_seeded.sh
+  if ! git -C $WT -c user.name=v -c user.email=v@v revert --no-commit $REV >/dev/null 2>&1; then
+    git -C $WT revert --abort >/dev/null 2>&1; git -C $WT checkout -- . >/dev/null 2>&1
+    if ! git -C $WT apply $(pwd)/$D/patch.diff; then echo "PATCH-DOES-NOT-APPLY $ID"; git -C /repo worktree remove --force $WT; exit 3; fi
+  fi
+elif ! git -C $WT apply $(pwd)/$D/patch.diff; then echo "PATCH-DOES-NOT-APPLY $ID"; git -C /repo worktree remove --force $WT; exit 3; fi
 CHECKS=$(python3 -c "import json;m=json.load(open('$D/meta.json'));print(' '.join(m.get('checks') or [m['property']]))")
 rc=0
 for c in $CHECKS; do
